@@ -121,7 +121,7 @@ def _rexpr(prog, fn, e, inners):
         g = find(prog, e["n"])
         r = _ref(prog, mod, e["n"])
         return {"int": r, "list": "sum(%s)" % r, "dict": "%s[\"k\"]" % r, "str": "len(%s)" % r,
-                "dictset": "sum(%s.values())" % r, "tuplist": "(%s[0] + sum(%s[1]))" % (r, r)}[g["vtype"]]
+                "dictset": "sum(%s.values())" % r, "mixset": "len(%s)" % r, "tuplist": "(%s[0] + sum(%s[1]))" % (r, r)}[g["vtype"]]
     if t in ("add", "mul"):
         return "(%s %s %s)" % (_rexpr(prog, fn, e["a"], inners), "+" if t == "add" else "*", _rexpr(prog, fn, e["b"], inners))
     if t == "inset":
@@ -163,6 +163,9 @@ def render_def(prog, d):
             # a dict whose insertion order follows the iteration order of a set of strings (hash-seed dependent);
             # its *value* (dict equality) is the same in every process
             return "%s = {k_: len(k_) for k_ in {%s}}\n" % (rn(d), ", ".join(_lit(v) for v in d["value"]))
+        if d["vtype"] == "mixset":
+            # a set whose members have different types ('missing value markers'); its iteration order depends on the hash seed
+            return "%s = {%s}\n" % (rn(d), ", ".join(_lit(v) for v in d["value"]))
         if d["vtype"] == "tuplist":
             # a tuple (hashable object) holding a list that can be mutated in place
             return "%s = (%s, %s)\n" % (rn(d), _lit(d["value"]["a"]), _lit(d["value"]["l"]))
@@ -458,6 +461,8 @@ def apply_edit(prog, edit, tag):
             d["value"] = d["value"] + ["n%d%s" % (len(d["value"]), "x" * delta)]
         elif d["vtype"] == "tuplist":
             d["value"] = {"a": d["value"]["a"] + delta, "l": list(d["value"]["l"])}
+        elif d["vtype"] == "mixset":
+            d["value"] = d["value"] + ["m%d%s" % (len(d["value"]), "x" * delta)]
         else:
             d["value"] = d["value"] + "y"
     elif kind == "varcopy":
@@ -510,7 +515,7 @@ def apply_edit(prog, edit, tag):
 # ------------------------------------------------------------------------------------------
 
 def program_strategy(max_fns=6, two_modules=True, allow_hidden=True, allow_explicit=True, allow_cluster=True,
-                     str_sets=True, allow_hidden_plain=False, allow_alias=True, explicit_f0=False, value_heavy=False, allow_fdef=False, allow_dictset=False, allow_init=False, allow_query=False, allow_tuplist=False, allow_declared=False, helper_heavy=False, allow_mut=False, allow_twins=False, allow_keyclash=False, allow_rename=False):
+                     str_sets=True, allow_hidden_plain=False, allow_alias=True, explicit_f0=False, value_heavy=False, allow_fdef=False, allow_dictset=False, allow_init=False, allow_query=False, allow_tuplist=False, allow_declared=False, helper_heavy=False, allow_mut=False, allow_twins=False, allow_keyclash=False, allow_rename=False, allow_mixset=False):
     from hypothesis import strategies as st
 
     small = st.integers(0, 9)
@@ -532,9 +537,13 @@ def program_strategy(max_fns=6, two_modules=True, allow_hidden=True, allow_expli
                 vt = "dictset"
             elif allow_tuplist and not value_heavy and draw(st.integers(0, 3)) == 0:
                 vt = "tuplist"
+            elif allow_mixset and not value_heavy and draw(st.integers(0, 3)) == 0:
+                vt = "mixset"
             val = {"int": draw(small_v), "list": draw(st.lists(small_v, max_size=3)), "dict": {"k": draw(small_v), "z": 1},
                    "dictset": draw(st.lists(st.sampled_from(["a", "bb", "ccc", "dddd", "e", "zz9", "q"]), min_size=2, max_size=5, unique=True)),
                    "tuplist": {"a": draw(small_v), "l": draw(st.lists(small_v, max_size=2))},
+                   "mixset": (draw(st.lists(st.sampled_from(["", "NA", "n/a", "?", "null", "-"]), min_size=2, max_size=4, unique=True))
+                              + draw(st.lists(st.sampled_from([None, 3, 17, 2.5, -1]), min_size=1, max_size=3, unique=True))) if vt == "mixset" else None,
                    "str": draw(st.text(alphabet="ab", max_size=3))}[vt]
             defs.append({"k": "var", "mod": draw(st.sampled_from(modules)), "name": "G%d" % i, "vtype": vt, "value": val})
         fnames = ["f%d" % i for i in range(nf)]
@@ -753,6 +762,8 @@ def features(prog):
         f.add("dict-from-set")
     if any(d["k"] == "var" and d["vtype"] == "tuplist" for d in prog["defs"]):
         f.add("tuple-holding-list")
+    if any(d["k"] == "var" and d["vtype"] == "mixset" for d in prog["defs"]):
+        f.add("mixed-type-set")
     if any(d["k"] in ("alias", "wrapper") for d in prog["defs"]):
         f.add("alias-or-wrapper")
     if any(d["k"] == "query" for d in prog["defs"]):
